@@ -47,6 +47,9 @@ func c18Scenarios(tier string) []c07Params {
 		{Name: "evalna-vs-eval", Pre: pre, Conns: [][][]string{{{"EVALNA", "tile38.call('SET','k','a','POINT',9,9); return tile38.call('SET','k','b','POINT',9,9)", "0"}}, {{"EVAL", scr, "0"}}},
 			Model: map[string][][]string{"0.0": {w("SET k a POINT 9 9"), w("SET k b POINT 9 9")}, "1.0": scrModel}, NonAtomic: map[string]bool{"0.0": true}, Prop: "C18"},
 		{Name: "evalro-vs-set", Pre: pre, Conns: [][][]string{{{"EVALRO", "return {tile38.call('GET','k','a'), tile38.call('GET','k','a')}", "0"}}, one("SET k a POINT 3 3")}, Prop: "C18"},
+		// the sha flavours take their locks on their own path through the dispatcher
+		{Name: "evalsha-vs-gets", Pre: append(append([][]string{}, pre...), []string{"SCRIPT", "LOAD", scr}), Conns: [][][]string{{{"EVALSHA", Sha1Sum(scr), "0"}}, two("GET k a", "GET k b")}, Model: map[string][][]string{"0.0": scrModel}, Prop: "C18"},
+		{Name: "evalrosha-vs-set", Pre: append(append([][]string{}, pre...), []string{"SCRIPT", "LOAD", "return {tile38.call('GET','k','a'), tile38.call('GET','k','a')}"}), Conns: [][][]string{{{"EVALROSHA", Sha1Sum("return {tile38.call('GET','k','a'), tile38.call('GET','k','a')}"), "0"}}, one("SET k a POINT 3 3")}, Prop: "C18"},
 	}
 	if tier == "thorough" {
 		scs = append(scs,
@@ -329,7 +332,7 @@ func c18PoolStates(s *Server) []*lua.LState {
 }
 
 func checkC18Box(job *Job, res *Result) {
-	res.Rule = "explicit enumeration: (1) everything reachable from the globals table of each pooled Lua state (tables, metatables incl. the string metatable, function environments, upvalues) - names subset of the documented allow-list, no Go function of a forbidden library; (2) assignment to 20 new global names; (3) all sequences of <= 3 commands over {EVAL ok, EVAL syntax error, EVAL raising, EVALSHA unknown, SCAN WHEREEVAL, SCRIPT LOAD, EVALRO ok} followed by an inspection of every pooled state; distinct = distinct reachable paths + sequences"
+	res.Rule = "explicit enumeration: (1) everything reachable from the globals table of each pooled Lua state (tables, metatables incl. the string metatable, function environments, upvalues) - names subset of the documented allow-list, no Go function of a forbidden library; (2) assignment to 20 new global names; (3) all sequences of <= 3 commands over {EVAL ok, EVAL syntax error, EVAL raising, EVALSHA unknown, SCAN WHEREEVAL, SCRIPT LOAD, EVALRO ok, SCAN WHEREEVAL indexing a missing field, SCAN WHEREEVAL raising} followed by an inspection of every pooled state; distinct = distinct reachable paths + sequences"
 	if job.Shard != 0 && job.NShards > 1 && job.Replay == nil {
 		// sequences are sharded, the walk runs in shard 0
 	}
@@ -342,6 +345,9 @@ func checkC18Box(job *Job, res *Result) {
 		{"SCAN", "k1", "WHEREEVAL", "return FIELDS.f == 1 and ARGV[1] == 'x'", "1", "x", "IDS"},
 		{"SCRIPT", "LOAD", "return 1"},
 		{"EVALRO", "return ARGV[1]", "0", "roarg"},
+		// filter scripts that fail on an object (indexing a missing field / raising)
+		{"SCAN", "k1", "WHEREEVAL", "return FIELDS.nosuch.x == 1", "0", "IDS"},
+		{"SCAN", "k1", "WHEREEVAL", "error('filter boom ' .. ID)", "0", "IDS"},
 	}
 	if job.Shard == 0 {
 		x := runExec(job, freezeAllBut(), func(x *Exec) {
